@@ -104,8 +104,9 @@ def check_total_order(prog, ctx):
 
 def check_comparison_only(prog, ctx):
     rid = "R04.2"
-    for fq in ("symmray.fermionic_core:resolve_combined_oddpos", "symmray.fermionic_core:oddpos_dag"):
-        f = prog.func(fq)
+    for f in prog.module("symmray.fermionic_core").all_funcs:
+        if f.parent is not None:
+            continue
         for n in ast.walk(f.node):
             if isinstance(n, ast.Attribute) and n.attr == "label":
                 par_ok = any(isinstance(p, ast.Compare) and any(x is n for x in ast.walk(p)) for p in ast.walk(f.node))
@@ -172,46 +173,66 @@ def check_exchange_sign(prog, ctx, fq, rid, seq_hint=None):
     return f
 
 
+def find_sort_loop(prog, module_name, kind):
+    """(function, loop, seq, lo, hi, ilo, ihi): the loop that compares adjacent entries seq[i], seq[i + 1];
+    searched in every function of the module so that extracting the sort into a helper does not hide it."""
+    hits = []
+    for f in prog.module(module_name).all_funcs:
+        for lp in ast.walk(f.node):
+            if not isinstance(lp, kind):
+                continue
+            loads = {}
+            for s_ in lp.body:
+                if isinstance(s_, ast.Assign) and isinstance(s_.value, ast.Subscript) and isinstance(s_.targets[0], ast.Name) \
+                        and isinstance(s_.value.value, ast.Name):
+                    loads[s_.targets[0].id] = (src(s_.value.value), src(s_.value.slice))
+            seqs = {v[0] for v in loads.values()}
+            if len(loads) == 2 and len(seqs) == 1:
+                idx = sorted(v[1] for v in loads.values())
+                lo = [k for k, v in loads.items() if "+" not in v[1]]
+                hi = [k for k, v in loads.items() if "+" in v[1]]
+                if len(lo) == 1 and len(hi) == 1 and loads[hi[0]][1].replace(" ", "") == loads[lo[0]][1] + "+1":
+                    uses_label = any(isinstance(n, ast.Attribute) and n.attr == "label" for n in ast.walk(lp))
+                    if uses_label:
+                        hits.append((f, lp, seqs.pop(), lo[0], hi[0], loads[lo[0]][1], loads[hi[0]][1], set(loads)))
+    return hits
+
+
+def removals(stmts, seq, ilo):
+    """number of entries removed from seq on this path (pop(i) x2 or del seq[i:i+2])"""
+    n = sum(1 for s in stmts if isinstance(s, ast.Expr) and isinstance(s.value, ast.Call) and src(s.value.func) == f"{seq}.pop")
+    for s in stmts:
+        if isinstance(s, ast.Delete):
+            for t in s.targets:
+                if isinstance(t, ast.Subscript) and src(t.value) == seq and isinstance(t.slice, ast.Slice):
+                    if src(t.slice.lower) == ilo and src(t.slice.upper).replace(" ", "") == f"{ilo}+2":
+                        n += 2
+    return n
+
+
 def check_phased_sort(prog, ctx):
+    from engine.inline import inlined
+
     rid = "R04.3"
-    f = prog.func("symmray.fermionic_core:resolve_combined_oddpos")
-    loops = [n for n in walk_own(f.node) if isinstance(n, ast.While)]
-    ctx.need(len(loops) == 1, "resolve_combined_oddpos: the sorting loop was not found (algorithm rewritten: re-derive R04.3)")
-    w = loops[0]
-    # names: a = seq[i], b = seq[i + 1]
-    loads = {}
-    for s in w.body:
-        if isinstance(s, ast.Assign) and isinstance(s.value, ast.Subscript) and isinstance(s.targets[0], ast.Name):
-            loads[s.targets[0].id] = (src(s.value.value), src(s.value.slice))
-    seqs = {v[0] for v in loads.values()}
-    ctx.need(len(seqs) == 1 and len(loads) == 2, "resolve_combined_oddpos: adjacent loads seq[i], seq[i + 1] not found")
-    seq = seqs.pop()
-    lo = [k for k, v in loads.items() if "+" not in v[1]][0]
-    hi = [k for k, v in loads.items() if "+" in v[1]][0]
-    ilo, ihi = loads[lo][1], loads[hi][1]
-    # phase variable: the one compared with -1 before phase_global
-    guards = [n for n in walk_own(f.node) if isinstance(n, ast.If) and any(
-        isinstance(c, ast.Call) and src(c.func).endswith(".phase_global") for s in n.body for c in ast.walk(s))]
-    if not (len(guards) == 1 and isinstance(guards[0].test, ast.Compare)):
-        ctx.bad(rid, f, f.node, "no guarded phase_global",
-                "the accumulated phase must reach the result through `new.phase_global(inplace=True)` guarded by `phase == -1`, and nowhere else")
-        return
-    phase = src(guards[0].test.left)
-    ctx.check(src(guards[0].test) == f"{phase} == -1", rid, f, guards[0], src(guards[0].test), "a global flip is applied iff the accumulated phase is -1")
-    pg = [c for s in guards[0].body for c in ast.walk(s) if isinstance(c, ast.Call) and src(c.func).endswith(".phase_global")][0]
-    ctx.check(src(pg.func) == "new.phase_global" and any(k.arg == "inplace" and src(k.value) == "True" for k in pg.keywords), rid, f, pg, src(pg),
-              "the flip goes through new.phase_global(inplace=True), nowhere else")
+    hits = find_sort_loop(prog, "symmray.fermionic_core", ast.While)
+    ctx.need(len(hits) == 1, f"the phased label sort (adjacent compare loop over labels) was found {len(hits)} times in fermionic_core "
+             "(algorithm rewritten: re-derive R04.3)")
+    f, w, seq, lo, hi, ilo, ihi, loadnames = hits[0]
+    # the phase variable is the one negated inside the loop
+    negs = [a for a in ast.walk(w) if isinstance(a, ast.Assign) and isinstance(a.value, ast.UnaryOp) and isinstance(a.value.op, ast.USub)
+            and src(a.value.operand) == src(a.targets[0])]
+    ctx.need(negs, "no phase negation inside the label sort")
+    phase = src(negs[0].targets[0])
     n_swap = n_pair = n_raise = n_noop = 0
-    for (conds, stmts) in leaf_paths([s for s in w.body if not (isinstance(s, ast.Assign) and isinstance(s.targets[0], ast.Name) and s.targets[0].id in loads)]):
+    body = [s for s in w.body if not (isinstance(s, ast.Assign) and isinstance(s.targets[0], ast.Name) and s.targets[0].id in loadnames)]
+    for (conds, stmts) in leaf_paths(body):
         neg, stores, pops, raises, other = classify_path(stmts, seq, phase)
-        cd = dict(conds)
+        pops = removals(stmts, seq, ilo)
         cdn = {}
         for k_, v_ in conds:
-            a_ = atom(ast.parse(k_, mode="eval").body)
-            # a negated atom that holds is the positive atom not holding
-            cdn[a_] = v_
+            cdn[atom(ast.parse(k_, mode="eval").body)] = v_
 
-        def holds(text):
+        def holds(text, cdn=cdn):
             a_ = atom(ast.parse(text, mode="eval").body)
             if a_ in cdn:
                 return cdn[a_]
@@ -236,10 +257,10 @@ def check_phased_sort(prog, ctx):
                       "labels are exchanged only when the right one sorts strictly before the left one")
         elif pops:
             n_pair += 1
-            ket_bra = holds(f"{hi}.dual") is True
-            ctx.check(pops == 2 and neg == (1 if ket_bra else 0), rid, f, w, f"pair path [{desc}]",
-                      f"path [{desc}] removes a conjugate pair (2 pops) and negates the phase iff the pair is ket-then-bra "
-                      f"(b dual): negations={neg}")
+            ket_bra = holds(f"{hi}.dual") is True or holds(f"{lo}.dual") is False
+            decided = holds(f"{hi}.dual") is not None or holds(f"{lo}.dual") is not None
+            ctx.check(pops == 2 and decided and neg == (1 if ket_bra else 0), rid, f, w, f"pair path [{desc}]",
+                      f"path [{desc}] removes a conjugate pair (2 entries) and negates the phase iff the pair is ket-then-bra: negations={neg}")
             ctx.check(holds(f"{lo}.label == {hi}.label") is True and holds(f"{lo}.dual != {hi}.dual") is True, rid, f, w,
                       f"pair condition [{desc}]", "a pair is removed only for equal labels with opposite directions")
         elif raises:
@@ -252,30 +273,99 @@ def check_phased_sort(prog, ctx):
             ctx.check(neg == 0 and adv, rid, f, w, f"no-op path [{desc}]", "already ordered, non-conjugate neighbours: no sign, advance")
     ctx.check(n_swap >= 1 and n_pair >= 2 and n_raise >= 1 and n_noop >= 1, rid, f, w, f"paths swap={n_swap} pair={n_pair} raise={n_raise} noop={n_noop}",
               "the sort has exchange, pair-removal (both orders), duplicate-raise and advance paths")
-    # cross-over sign
-    init = [n for n in walk_own(f.node) if isinstance(n, ast.If) and any(
-        isinstance(s, ast.Assign) and src(s.targets[0]) == phase for s in n.body) and n.lineno < w.lineno]
-    ok = len(init) == 1 and conjuncts(init[0].test) == parse_cond("left.parity and len(r_oddpos) % 2 == 1") and src(init[0].body[0]) == f"{phase} = -1" \
-        and len(init[0].orelse) == 1 and src(init[0].orelse[0]) == f"{phase} = 1"
-    ctx.check(ok, rid, f, init[0] if init else f.node, src(init[0].test) if init else "missing",
+
+    # ---- the caller: cross-over sign, phase_global, labels stored
+    r = prog.func("symmray.fermionic_core:resolve_combined_oddpos")
+    rn = inlined(prog, r)
+    want = parse_cond("left.parity and len(r_oddpos) % 2 == 1")
+    cross_nodes = []
+    cross_vars = set()
+    for n_ in ast.walk(rn):
+        if isinstance(n_, ast.If) and conjuncts(n_.test) == want:
+            cross_nodes.append(n_)
+        if isinstance(n_, ast.Assign) and isinstance(n_.targets[0], ast.Name) and conjuncts(n_.value) == want:
+            cross_vars.add(n_.targets[0].id)
+    for n_ in ast.walk(rn):
+        if isinstance(n_, ast.If) and isinstance(n_.test, ast.Name) and n_.test.id in cross_vars:
+            cross_nodes.append(n_)
+    ok = len(cross_nodes) == 1
+    if ok:
+        body_src = [src(s_) for s_ in cross_nodes[0].body]
+        else_src = [src(s_) for s_ in cross_nodes[0].orelse]
+        # either `phase = -1 else phase = 1` before the sort, or `phase = -phase` applied to the sort's result
+        ok = (any(x.endswith("= -1") for x in body_src) and any(x.endswith("= 1") for x in else_src)) or \
+             (any("= -" in x for x in body_src) and not else_src)
+    ctx.check(ok, rid, r, cross_nodes[0] if cross_nodes else r.node, src(cross_nodes[0].test) if cross_nodes else "missing",
               "moving the right labels over the left operand costs a sign iff the left operand is odd and the right carries an odd number of labels")
-    # labels stored on every path
-    merged = [a for a in walk_own(f.node) if isinstance(a, ast.Assign) and src(a.targets[0]) == seq and src(a.value) == "[*l_oddpos, *r_oddpos]"]
-    ctx.check(len(merged) == 1, rid, f, f.node, "merge", "the sort starts from left labels followed by right labels")
-    outs = [a for a in walk_own(f.node) if isinstance(a, ast.Assign) and src(a.targets[0]) == "new._oddpos"]
-    early = [n for n in walk_own(f.node) if isinstance(n, ast.If) and conjuncts(n.test) == parse_cond("not l_oddpos and not r_oddpos")]
-    # the early-return branch assigns inside an `if`: walk the whole function for the stores
-    outs = [a for a in ast.walk(f.node) if isinstance(a, ast.Assign) and src(a.targets[0]) == "new._oddpos"]
-    ok = len(outs) == 2 and {src(a.value) for a in outs} == {"()", f"tuple({seq})"} and len(early) == 1 and isinstance(early[0].body[-1], ast.Return)
-    ctx.check(ok, rid, f, f.node, "labels stored", "the resulting labels are stored on the new array on every path")
+    guards = [n_ for n_ in ast.walk(rn) if isinstance(n_, ast.If) and any(
+        isinstance(c, ast.Call) and src(c.func).endswith(".phase_global") for s_ in n_.body for c in ast.walk(s_))]
+    if not (len(guards) == 1 and isinstance(guards[0].test, ast.Compare)):
+        ctx.bad(rid, r, r.node, "no guarded phase_global",
+                "the accumulated phase must reach the result through `new.phase_global(inplace=True)` guarded by `phase == -1`, and nowhere else")
+    else:
+        pv = src(guards[0].test.left)
+        ctx.check(conjuncts(guards[0].test) == parse_cond(f"{pv} == -1"), rid, r, guards[0], src(guards[0].test),
+                  "a global flip is applied iff the accumulated phase is -1")
+        pg = [c for s_ in guards[0].body for c in ast.walk(s_) if isinstance(c, ast.Call) and src(c.func).endswith(".phase_global")][0]
+        ctx.check(src(pg.func) == "new.phase_global" and any(k.arg == "inplace" and src(k.value) == "True" for k in pg.keywords), rid, r, pg, src(pg),
+                  "the flip goes through new.phase_global(inplace=True), nowhere else")
+    others = [c for c in ast.walk(rn) if isinstance(c, ast.Call) and isinstance(c.func, ast.Attribute)
+              and c.func.attr in ("apply_to_arrays", "phase_flip", "phase_sector", "modify")]
+    ctx.check(not others, rid, r, r.node, "other sign channels", "no other sign-changing call is made on the operands or the result")
+    merged = [a for a in ast.walk(rn) if isinstance(a, ast.Assign) and src(a.value) in ("[*l_oddpos, *r_oddpos]", "list(l_oddpos) + list(r_oddpos)")]
+    ctx.check(len(merged) == 1, rid, r, r.node, "merge", "the sort starts from left labels followed by right labels")
+    outs = [a for a in ast.walk(rn) if isinstance(a, ast.Assign) and src(a.targets[0]) == "new._oddpos"]
+    early = [n_ for n_ in ast.walk(rn) if isinstance(n_, ast.If) and conjuncts(n_.test) == parse_cond("not l_oddpos and not r_oddpos")]
+    mseq = src(merged[0].targets[0]) if merged else "oddpos"
+    ok = len(outs) == 2 and {src(a.value) for a in outs} == {"()", f"tuple({mseq})"} and len(early) == 1 and isinstance(early[0].body[-1], ast.Return)
+    ctx.check(ok, rid, r, r.node, "labels stored", "the resulting labels are stored on the new array on every path")
     ctx.minimum(rid, 12, "paths of the sort + cross-over + result")
+
+
+def check_resolve_everywhere(prog, ctx):
+    """R04.4: every fermionic contraction passes its result through resolve_combined_oddpos before any return."""
+    rid = "R04.4"
+    for fq, contraction in (("symmray.fermionic_core:tensordot_fermionic", "tensordot_abelian"),
+                            ("symmray.fermionic_core:FermionicArray.__matmul__", "AbelianArray.__matmul__")):
+        f = prog.func(fq)
+        body = f.node.body
+        idx_con = idx_res = None
+        cvar = None
+        for i, s_ in enumerate(body):
+            for c in ast.walk(s_):
+                if isinstance(c, ast.Call) and src(c.func) == contraction:
+                    idx_con = i
+                    if isinstance(s_, ast.Assign) and isinstance(s_.targets[0], ast.Name):
+                        cvar = s_.targets[0].id
+                    con = c
+                if isinstance(c, ast.Call) and src(c.func) == "resolve_combined_oddpos" and idx_res is None:
+                    idx_res = i
+                    res = c
+        ctx.need(idx_con is not None, f"{f.qualname}: block contraction call {contraction} not found")
+        ok = idx_res is not None and isinstance(body[idx_con], ast.Assign) and cvar is not None
+        why = "the contraction result is bound to a local and resolve_combined_oddpos is called at the top level of the function"
+        if ok:
+            ok = idx_res > idx_con and isinstance(body[idx_res], ast.Expr) and src(res.args[2]) == cvar if len(res.args) == 3 else False
+            why = "resolve_combined_oddpos(left, right, result) is applied to the contraction result"
+        if ok:
+            rets = [i for i, s_ in enumerate(body) if any(isinstance(x, ast.Return) for x in ast.walk(s_))]
+            ok = all(i < idx_con or i > idx_res for i in rets)
+            why = "no return lies between the contraction and the label / global-sign resolution"
+        if ok:
+            pa = [k for k in con.keywords if k.arg == "preserve_array"]
+            ok = len(pa) == 1 and src(pa[0].value) == "True"
+            why = "the block contraction is asked for an array (preserve_array=True) so that scalar results are resolved too"
+        ctx.check(ok, rid, f, body[idx_con], src(body[idx_con])[:100], f"{f.qualname}: {why}")
+    ctx.minimum(rid, 2, "tensordot_fermionic, FermionicArray.__matmul__")
 
 
 def run(prog, ctx):
     ctx.rule("R04.1", "FermionicOperator.__lt__/__eq__: strict total order, exhaustively over order types of three labels x directions")
     ctx.rule("R04.2", "labels are used only via comparisons, .dag and .dual")
+    ctx.rule("R04.4", "every fermionic contraction result (scalar results included) passes through resolve_combined_oddpos before it is returned")
     ctx.rule("R04.3", "phased sort: exchange => exactly one sign; pair removal => sign iff ket-then-bra; duplicates raise; cross-over sign; "
              "phase reaches the array only via phase_global")
     check_total_order(prog, ctx)
     check_comparison_only(prog, ctx)
     check_phased_sort(prog, ctx)
+    check_resolve_everywhere(prog, ctx)
